@@ -64,6 +64,9 @@ func checkMain(args []string) {
 	}
 	w := newEvWriter(*out, 150000)
 	emit := func(state []jType) {
+		// Check must not depend on (nor change) the order in which the types were added
+		state = append([]jType{}, state...)
+		rng.Shuffle(len(state), func(i, j int) { state[i], state[j] = state[j], state[i] })
 		c := sCase{Fam: "check", Kind: "check", Build: "lit", State: state}
 		ev := runSchemaCase(c, nil)
 		stt.Calls++
